@@ -57,7 +57,7 @@ impl ObsData {
     }
 }
 
-enum Pre {
+pub enum Pre {
     None,
     Eval { pop: Option<Vec<Vec<u64>>>, evals: Option<u32>, calls: usize },
     Best { best: Option<KV>, pop: Vec<KV> },
@@ -247,7 +247,7 @@ impl<P: HProblem> Obs<P> {
         }
     }
 
-    fn snapshot_pre(&mut self, kind: &str, problem: &P, state: &State<P>) -> Pre {
+    pub fn snapshot_pre(&mut self, kind: &str, problem: &P, state: &State<P>) -> Pre {
         let cur_pop = || -> Option<Vec<KV>> {
             let pops = state.try_borrow::<Populations<P>>().ok()?;
             pops.get_current().map(pop_kvs::<P>)
@@ -379,7 +379,7 @@ impl<P: HProblem> Obs<P> {
         }
     }
 
-    fn post(&mut self, kind: &str, pre: Pre, problem: &P, state: &State<P>, d: &mut ObsData) {
+    pub fn post(&mut self, kind: &str, pre: Pre, problem: &P, state: &State<P>, d: &mut ObsData) {
         let tname = self.case.kind.name();
         match pre {
             Pre::None => {}
@@ -743,7 +743,7 @@ impl<P: HProblem> Obs<P> {
             Kind::RealSa | Kind::PermSa | Kind::RealLs | Kind::PermLs | Kind::RealIls | Kind::PermIls | Kind::RealRs | Kind::PermRs | Kind::RealRw | Kind::PermRw => Some((1, 1)),
             Kind::AntSystem | Kind::Mmas => Some((c.pu("num_ants") as usize + 1, c.pu("num_ants") as usize + 1)),
             Kind::Cro => Some((1, usize::MAX)),
-            Kind::GaArchive | Kind::EsArchive => None,
+            Kind::GaArchive | Kind::EsArchive | Kind::DeVariants | Kind::GaVariants => None,
         };
         match exp {
             Some((lo, hi)) if size < lo || size > hi => Some(if lo == hi { format!("{lo}") } else if hi == usize::MAX { format!(">= {lo}") } else { format!("{lo}..={hi}") }),
